@@ -667,3 +667,34 @@ T("C18", "twin-version-memo-reset-by-stamp-setter-not-decided", BC, "", "", edit
 M("C18", "version-memoised-through-local", BC, "", "", "C18.R5", edits=[(BC, CACHE_FIELDS, CACHE_FIELDS + "        self._deduced = None\n"), (BC, VERSION_PROP, VERSION_MEMO_LOCAL)])
 M("C18", "version-cached-property", BC, VERSION_DEF, "    @functools.cached_property\n    def version(self) -> BeaconVersion:\n", "C18.R5")
 M("C18", "version-lru-cache-under-property", BC, VERSION_DEF, "    @property\n    @functools.lru_cache(maxsize=None)\n    def version(self) -> BeaconVersion:\n", "C18.R5")
+
+# ----------------------------------------------------------------------------------------------- R6: the image end computed in several ways
+# (wave 5) a position local with several definitions / a conditional expression: every way must be headers + the raw
+# data of every entry (the empty table apart); one selected entry of the table is located and wrong
+SECTIONS = "        sections = [pestruct.IMAGE_SECTION_HEADER(fh) for _ in range(image.NumberOfSections)]\n"
+HEADERS = "        size = optional_header.SizeOfHeaders\n"
+T("C18", "twin-size-sum-added-when-table-nonempty", PE, SIZE, HEADERS + SECTIONS + "        if len(sections) >= 1:\n            size += sum(s.SizeOfRawData for s in sections)\n")
+T("C18", "twin-size-if-else-on-empty-table", PE, SIZE, SECTIONS + "        if sections:\n            size = optional_header.SizeOfHeaders + sum(s.SizeOfRawData for s in sections)\n        else:\n            size = optional_header.SizeOfHeaders\n")
+T("C18", "twin-size-conditional-expression", PE, SIZE, SECTIONS + "        size = optional_header.SizeOfHeaders + sum(s.SizeOfRawData for s in sections) if sections else optional_header.SizeOfHeaders\n")
+T("C18", "twin-size-conditional-summand", PE, SIZE, SECTIONS + "        size = optional_header.SizeOfHeaders + (sum(s.SizeOfRawData for s in sections) if image.NumberOfSections > 0 else 0)\n")
+T("C18", "twin-size-per-machine-same-formula", PE, SIZE, SECTIONS + "        if image.Machine == pestruct.IMAGE_FILE_MACHINE_AMD64:\n            size = optional_header.SizeOfHeaders + sum(s.SizeOfRawData for s in sections)\n        else:\n            size = sum(s.SizeOfRawData for s in sections) + optional_header.SizeOfHeaders\n")
+T("C18", "twin-size-single-entry-special-case-not-decided", PE, SIZE, SECTIONS + "        if image.NumberOfSections == 1:\n            size = optional_header.SizeOfHeaders + sections[0].SizeOfRawData\n        else:\n            size = optional_header.SizeOfHeaders + sum(s.SizeOfRawData for s in sections)\n")
+T("C18", "twin-size-empty-table-guard-before-loop-not-decided", PE, SIZE, SECTIONS + "        if not sections:\n            size = optional_header.SizeOfHeaders\n        else:\n            size = optional_header.SizeOfHeaders\n            for section in sections:\n                size += section.SizeOfRawData\n")
+M("C18", "end-from-first-entry-only", PE, SIZE, HEADERS + SECTIONS + "        if image.NumberOfSections:\n            size += sections[0].SizeOfRawData\n", "C18.R6")
+M("C18", "end-from-last-entry-through-temporary", PE, SIZE, HEADERS + SECTIONS + "        if len(sections) > 0:\n            last = sections[len(sections) - 1]\n            size = last.PointerToRawData + last.SizeOfRawData\n", "C18.R6")
+M("C18", "end-overwritten-per-entry-in-loop", PE, SIZE, HEADERS + SECTIONS + "        for section in sections:\n            size = section.PointerToRawData + section.SizeOfRawData\n", "C18.R6")
+M("C18", "end-from-last-entry-conditional-expression", PE, SIZE, SECTIONS + "        size = sections[-1].PointerToRawData + sections[-1].SizeOfRawData if sections else optional_header.SizeOfHeaders\n", "C18.R6")
+M("C18", "end-virtual-sizes-when-table-nonempty", PE, SIZE, HEADERS + SECTIONS + "        if sections:\n            size = optional_header.SizeOfHeaders + sum(s.VirtualSize for s in sections)\n", "C18.R6")
+M("C18", "end-first-and-last-entry", PE, SIZE, HEADERS + SECTIONS + "        if sections:\n            size = sections[0].PointerToRawData + sections[-1].PointerToRawData - sections[0].PointerToRawData + sections[-1].SizeOfRawData\n", "C18.R6")
+
+# ----------------------------------------------------------------------------------------------- R2: compile stamp survives a truncated image
+# (wave 5) once the file header is parsed its stamp is reported even when a later header is cut short
+STAMP = "        compile_stamp = image.TimeDateStamp\n"
+EXPORT_DD = "        export_dd = optional_header.DataDirectory[pestruct.IMAGE_DIRECTORY_ENTRY_EXPORT]\n"
+EOF_PASS = "        # truncated image: report the stamps found so far\n        pass\n    return (compile_stamp, export_stamp)\n"
+T("C18", "twin-truncation-handler-returns-pair", PE, EOF_PASS, "        return (compile_stamp, export_stamp)\n    return (compile_stamp, export_stamp)\n")
+T("C18", "twin-compile-stamp-through-temporary", PE, STAMP, "        stamp = image.TimeDateStamp\n        compile_stamp = stamp\n")
+T("C18", "twin-compile-stamp-int-call-not-decided", PE, STAMP, "        compile_stamp = int(image.TimeDateStamp)\n")
+M("C18", "compile-stamp-taken-after-optional-header", PE, "", "", "C18.R2", edits=[(PE, STAMP, ""), (PE, EXPORT_DD, STAMP + EXPORT_DD)])
+M("C18", "compile-stamp-taken-after-section-table", PE, "", "", "C18.R2", edits=[(PE, STAMP, ""), (PE, EXPORT, EXPORT.replace("        ds = None\n", STAMP + "        ds = None\n", 1))])
+M("C18", "truncation-handler-reports-nothing", PE, EOF_PASS, "        return (None, None)\n    return (compile_stamp, export_stamp)\n", "C18.R2")
